@@ -72,6 +72,9 @@ def run(ctx):
         near = [(d[1], x) for x in (d[2] - 1, d[2], d[2] + 1) if (d[1], x) in PAIRS]
         pairs = PAIRS if not ctx.quick else sorted(set(near + [(m, dd) for (m, dd) in PAIRS if dd in (1, 28, 29, 30, 31)]))
         cases.append({"ts": d + (12, 43), "pairs": pairs, "pods": basepods if ctx.quick else allpods, "dowdom": True})
+    # century years (2100 is not a leap year): 29.2. asked around then must land on 29.2.2104
+    for d in [(2100, 2, 27), (2100, 2, 28), (2100, 3, 1), (2099, 12, 31), (2096, 2, 29), (2000, 2, 28)]:
+        cases.append({"ts": d + (12, 43), "pairs": [(2, 28), (2, 29), (3, 1), (12, 31)], "pods": basepods, "dowdom": True})
     for hm in [(0, 0), (5, 59), (6, 0), (6, 1), (11, 59), (12, 0), (17, 0), (23, 59)]:
         cases.append({"ts": (2020, 2, 28) + hm, "pairs": [(2, 28), (2, 29), (3, 1)], "pods": allpods})
     core.run_stage(ctx, "rule-rows", cases, rows_for_day, "RulesTrace", sig_keys=(), nontrivial=lambda c: c["ts"])
